@@ -1053,22 +1053,26 @@ class PluginManager:
         # believes that only one of the paths were covered.
         # sourcery skip: remove-assert-true
         for next_plugin in self.__enabled_plugins_for_completed_file:
+            plugin_context = context
             if context_map:
                 if next_plugin.plugin_id not in context_map:
                     continue
-                context = context_map[next_plugin.plugin_id]
+                plugin_context = context_map[next_plugin.plugin_id]
             # if context.in_fix_mode and not next_plugin.plugin_supports_fix:
             #     continue
             try:
-                if context.in_fix_mode:
-                    context.set_current_fix_line(None)
-                next_plugin.plugin_instance.completed_file(context)
-                if context.in_fix_mode and context.current_fix_line is not None:
+                if plugin_context.in_fix_mode:
+                    plugin_context.set_current_fix_line(None)
+                next_plugin.plugin_instance.completed_file(plugin_context)
+                if (
+                    plugin_context.in_fix_mode
+                    and plugin_context.current_fix_line is not None
+                ):
                     (
                         current_fix_line,
                         line_append_record,
                     ) = self.__completed_file_fix_mode_middle(
-                        context, current_fix_line, next_plugin, line_number
+                        plugin_context, current_fix_line, next_plugin, line_number
                     )
                 assert True
             except Exception as this_exception:
@@ -1163,19 +1167,20 @@ class PluginManager:
         """
         context.line_number = line_number
         for next_plugin in self.__enabled_plugins_for_next_line:
+            plugin_context = context
             if context_map:
                 if next_plugin.plugin_id not in context_map:
                     continue
-                context = context_map[next_plugin.plugin_id]
+                plugin_context = context_map[next_plugin.plugin_id]
             # if context.in_fix_mode and not next_plugin.plugin_supports_fix:
             #     continue
             try:
-                if context.in_fix_mode:
-                    self.__next_line_fix_mode_before(context, line, next_plugin)
-                next_plugin.plugin_instance.next_line(context, line)
-                if context.current_fix_line is not None:
+                if plugin_context.in_fix_mode:
+                    self.__next_line_fix_mode_before(plugin_context, line, next_plugin)
+                next_plugin.plugin_instance.next_line(plugin_context, line)
+                if plugin_context.current_fix_line is not None:
                     line = self.__next_line_fix_mode_after(
-                        context, line, line_number, next_plugin
+                        plugin_context, line, line_number, next_plugin
                     )
             except Exception as this_exception:
                 actual_line = line if self.__show_stack_trace else None
@@ -1205,15 +1210,16 @@ class PluginManager:
         Inform any listeners of a new token that has been processed.
         """
         for next_plugin in self.__enabled_plugins_for_next_token:
+            plugin_context = context
             if context_map:
                 if next_plugin.plugin_id not in context_map:
                     continue
-                context = context_map[next_plugin.plugin_id]
+                plugin_context = context_map[next_plugin.plugin_id]
 
             # if context.in_fix_mode and not next_plugin.plugin_supports_fix:
             #     continue
             try:
-                next_plugin.plugin_instance.next_token(context, token)
+                next_plugin.plugin_instance.next_token(plugin_context, token)
             except Exception as this_exception:
                 actual_token = token if self.__show_stack_trace else None
 
